@@ -624,7 +624,7 @@ def run(ctx):
     from quantecon import DiscreteRV
     import quantecon.random.utilities as qru
     ctx.trusted += ["float facts F1 (0<=u<1, c>0 normal => u*c < c), F2 (adding a zero does not change comparisons), "
-                    "F3 (order/monotone cumulative sums) are Section hypotheses of C10_path_valid_generic, proved for Q, "
+                    "F3 (order/monotone cumulative sums) are hypotheses of C10_path_valid_float / C10_simulate_indices_float / C10_path_sparse_valid / C10_bracket_least, proved for Q, "
                     "spot-checked by vm_compute for binary64",
                     "NumPy ndarray.searchsorted(side='right') modelled by its specification on sorted arrays",
                     "NUMBA_BOUNDSCHECK=1 as the detector of out-of-bounds reads"]
